@@ -882,7 +882,22 @@ def check_pv_pairing(run: Run, prog: Program, info: dict[str, dict[str, str]]) -
               "the allocations are reported against a different request", node=calls[0], file=dp.file,
               instance=f"{dp.qual}: _set_api_power reports against the processed request")
     te = TermEval()
-    L, M = ledger.id, amap.id
+
+    def alias_root(name: str) -> str:
+        # `x = y` with x bound exactly once: x is y (results handed back from a spliced helper)
+        for _ in range(8):
+            binds = [st for st in body_walk(dp.node) if isinstance(st, (ast.Assign, ast.AnnAssign, ast.AugAssign, ast.For))
+                     and any(isinstance(x, ast.Name) and x.id == name and isinstance(x.ctx, ast.Store)
+                             for x in ast.walk(st.target if not isinstance(st, ast.Assign) else ast.Tuple(elts=st.targets)))]
+            if len(binds) == 1 and isinstance(binds[0], (ast.Assign, ast.AnnAssign)) \
+                    and isinstance(getattr(binds[0], "value", None), ast.Name) \
+                    and isinstance(binds[0].targets[0] if isinstance(binds[0], ast.Assign) else binds[0].target, ast.Name):
+                name = binds[0].value.id  # type: ignore[union-attr]
+                continue
+            break
+        return name
+
+    L, M = alias_root(ledger.id), alias_root(amap.id)
     inits_l: list[ast.AST] = []
     inits_m: list[ast.AST] = []
     n_pairs = 0
